@@ -1,3 +1,3 @@
-from . import primpolys
+from . import grayconst, primpolys
 
-ALL = [primpolys.generate]
+ALL = [primpolys.generate, grayconst.generate]
